@@ -30,6 +30,19 @@ chk("C05","faultx","fault_enumeration",
     "For every prior state (BFS to depth D over the alphabet), every mutating operation (collection API, GraphQL mutations incl. multi-document and upsert, merges of remote commits, index create/drop, schema add/patch, import) and every storage call the operation issues (named by kind/key/occurrence) the operation is re-run with that call failing (I/O error; additionally ErrTxnConflict at commit): error => store (minus unreachable blocks), logical dump and in-memory probe requests unchanged and no update event; success => store, dump and events identical to the fault-free run.",
     "trusted: the store's own commit atomicity (badger's contract, modelled by vkv); one fault per run; faults inside the ACP engine's store and the versioned fetcher's transient store are not injected; schema/index operations get a fresh DB object per run.", "exhaustive single-fault enumeration over every storage call of every operation on the real code", "§3 E2, §4 C05")
 
+E6_NOTE = ("trusted: the reference evaluator (plain Go, written from docs/website/references/query-specification) where it speaks, "
+           "metamorphic relations elsewhere; value alphabets a in {0,1,2,null}, b in {1,2,null}, s in {x,yx,null}; <=3 documents (4 thorough); "
+           "requests limited to the generated grammar.")
+chk("C07","qx twins","exploration",
+    "Twin databases with identical history, one without secondary indexes: for 10 index sets (single asc/desc, composite with mixed directions, unique, created before or after the data) x every document multiset x mutation histories of <=2 steps, every filter/order/limit term of the grammar is answered by both and compared (multisets; sort-key sequences when ordered); after every history the raw index entries must equal those of the same index rebuilt from the current documents; a unique index must reject exactly the writes that a reference says would duplicate a live non-null value (BFS over create/update/delete histories).",
+    E6_NOTE + " The scan path is the reference (its own semantics are C08's subject). Array/JSON/relation indexes are not in the alphabet yet.", "bounded-exhaustive differential enumeration (indexed vs plain twin) on the implementation", "§4 C07")
+chk("C08","qx","exploration",
+    "All document multisets up to k over the value alphabet (null-free and with nulls) x all requests of the grammar (atoms, _not, _and/_or pairs, 1-2 order keys x directions, limit/offset, count/sum/avg/min/max with filters, groupBy): compared with a reference evaluator where the documentation defines the result, and with metamorphic relations everywhere (F/_not F partition, _and = intersection, _or = union, limit/offset = slice of the unlimited order, aggregate = arithmetic over the listing). No-panic/no-hang: a 44-request corpus (commits, latestCommits, time travel, joins, aggregates, explain, mutations) and every single-token deletion/duplication/replacement of it, on signed and unsigned databases, under recover and a hang guard.",
+    E6_NOTE, "bounded-exhaustive enumeration of inputs against a reference model + metamorphic oracles on the implementation", "§4 C08")
+chk("C17","codecx","exploration",
+    "All ordered pairs of per-kind boundary alphabets (Int ~400 values incl. every power of two +-1 and the varint format boundaries, Float64/Float32 incl. +-0, sub-normals, +-Inf and Nextafter neighbours, strings with 0x00/0xFF bytes and prefixes, nanosecond times, Bool) x {asc,desc}: sign(bytes.Compare(enc a, enc b)) = value order, null first, decode(encode v) = v; all pairs of (Int,String) tuples incl. nulls x 4 direction combinations through Encode/DecodeIndexDataStoreKey (order + split back into components); end-to-end: collections holding the alphabet in an indexed column, _gt/_ge/_lt/_le/_eq/_ne at every value and order asc/desc vs the scan twin.",
+    "trusted: Go's own comparison of the value kinds; -0/+0 treated as one value (IEEE ==).", "exhaustive all-pairs enumeration over boundary alphabets on the real codec", "§4 C17")
+
 ALL = [f"C{i:02d}" for i in range(1, 21)]
 NA_REASON = "check not built yet in this round (work in progress; see DESIGN.md §4 for the planned exhaustive check)"
 
@@ -43,6 +56,7 @@ def main():
                "source_commits": [h.split()[0] for h in hooks], "add_only": True},
      "engines": [
        {"name":"crdtx","path":"harness/crdtx","serves_properties":["C01","C02","C03","C04"],"kind_free_text":"explicit-state BFS over real replicas on a snapshotable store device"},
+       {"name":"qx","path":"harness/qx","serves_properties":["C07","C08","C17"],"kind_free_text":"bounded-exhaustive document-set and request generator, reference evaluator, twin databases"},
        {"name":"faultx","path":"harness/faultx","serves_properties":["C05"],"kind_free_text":"single-fault enumeration of every storage call of every operation"},
        {"name":"vkv","path":"harness/vkv","serves_properties":[],"kind_free_text":"snapshotable transactional store device; bound to badger by `vcheck CONFORM` (exhaustive differential run) in setup"},
      ],
